@@ -1,8 +1,9 @@
 (* C22  Whole-program results do not depend on how summaries are stored.
    Model: Ctu/Defs.v.  `nm` = the element names used by writers and readers (regenerated from
    lib/ctu.cpp into Ctu/Gen_Names.v); nm_ok nm = each writer's name is its reader's name and the two
-   call readers are distinct.  The check evaluates nm_okb on the regenerated names. *)
-From CV Require Import Base.Bytes Ctu.Defs Ctu.XmlProofs Ctu.RoundTrip Ctu.PathProofs Ctu.Witness.
+   call readers are distinct.  C22_current_* instantiate the theorems with the regenerated names:
+   C22_current_names_ok stops checking when a writer and its reader diverge again. *)
+From CV Require Import Base.Bytes Ctu.Defs Ctu.XmlProofs Ctu.RoundTrip Ctu.PathProofs Ctu.Witness Ctu.Gen_Names Ctu.Current.
 Require Import Permutation.
 Local Open Scope N_scope.
 
@@ -37,16 +38,27 @@ Theorem C22_wp_storage_independent : forall nm depth warn l, nm_ok nm -> forallb
     whole_program depth warn (map (fun s => load nm (store nm s)) l) = whole_program depth warn l.
 Proof. exact wp_storage_independent. Qed.
 
-(* --- the names of the unrepaired code (NestedCall written as <function-call>): exactly the nested calls are lost *)
+(* --- the code that exists: the names regenerated from lib/ctu.cpp satisfy nm_ok, unconditionally *)
+Theorem C22_current_names_ok : nm_ok gen_names.
+Proof. exact current_names_ok. Qed.
+
+Theorem C22_current_ctu_roundtrip : forall c, safe_ctu c = true -> load_ctu gen_names (ctu_to_xml gen_names c) = c.
+Proof. exact current_ctu_roundtrip. Qed.
+
+Theorem C22_current_wp_storage_independent : forall depth warn l, forallb safe_fsum l = true ->
+    whole_program depth warn (map (fun s => load gen_names (store gen_names s)) l) = whole_program depth warn l.
+Proof. exact current_wp_storage_independent. Qed.
+
+(* --- the names of the code before fix 7d88646 (NestedCall written as <function-call>): exactly the nested calls are lost *)
 Theorem C22_ctu_roundtrip_nonnested_partial : forall nm c, nm_nested_as_fc nm -> forallb safe_fc (c_fcs c) = true ->
     load_ctu nm (ctu_to_xml nm c) = mkCtu (c_fcs c) [].
 Proof. exact ctu_roundtrip_drops_nested. Qed.
 
-Theorem C22_ctu_roundtrip_nested_refuted :
+Theorem C22_old_names_ctu_roundtrip_refuted :
   exists c, safe_ctu c = true /\ load_ctu names_unfixed (ctu_to_xml names_unfixed c) <> c.
 Proof. exists w_ctu. split; [reflexivity|vm_compute; discriminate]. Qed.
 
-Theorem C22_wp_storage_refuted :
+Theorem C22_old_names_wp_storage_refuted :
   exists l, forallb safe_fsum l = true /\
             whole_program 2 true (map (fun s => load names_unfixed (store names_unfixed s)) l) = [] /\
             length (whole_program 2 true l) = 1%nat.
@@ -74,9 +86,12 @@ Print Assumptions C22_bufferoverrun_roundtrip.
 Print Assumptions C22_odr_roundtrip.
 Print Assumptions C22_unusedfn_roundtrip.
 Print Assumptions C22_wp_storage_independent.
+Print Assumptions C22_current_names_ok.
+Print Assumptions C22_current_ctu_roundtrip.
+Print Assumptions C22_current_wp_storage_independent.
 Print Assumptions C22_ctu_roundtrip_nonnested_partial.
-Print Assumptions C22_ctu_roundtrip_nested_refuted.
-Print Assumptions C22_wp_storage_refuted.
+Print Assumptions C22_old_names_ctu_roundtrip_refuted.
+Print Assumptions C22_old_names_wp_storage_refuted.
 Print Assumptions C22_find_path_reach.
 Print Assumptions C22_find_path_chain.
 Print Assumptions C22_wp_perm_partial.
